@@ -134,6 +134,13 @@ EXTRA_REQUIRES.update({
 })
 
 
+def _nlm_square(a):
+    """nlm = (lmax + 1)^2 with lmax >= 1: the harmonics routines write the rows of every degree up to floor(sqrt(nlm - 1)) (callers pass (lmax+1)^2)"""
+    L = tm.var("lmax_of_nlm", "I")
+    return [tm.mk_le(tm.ONE, L), tm.mk_eq(a["nlm"], (L + 1) * (L + 1))]
+
+
+EXTRA_REQUIRES["compute_spline_bas_separate_deriv"] = _nlm_square
 _cols = lambda a: [c for k in ("ig", "ix", "iy", "iz") for c in (tm.mk_le(tm.ZERO, a[k]), tm.mk_lt(a[k], a["nf"]))] + \
     [tm.mk_not(tm.mk_eq(a[x], a[y])) for x, y in (("ig", "ix"), ("ig", "iy"), ("ig", "iz"), ("ix", "iy"), ("ix", "iz"), ("iy", "iz"))]
 for _f in ("add_lp1_term_fwd", "add_lp1_term_bwd", "add_lp1_term_onsite_fwd", "add_lp1_term_onsite_bwd", "add_lp1_onsite_new_fwd", "add_lp1_onsite_new_bwd", "add_lp1_term_grad"):
@@ -175,6 +182,8 @@ SKIP = {
     "SDMXylm_yzx2xyz": "div/mod decomposition of a collapsed (atom, block) index with a per-component stride: undecided by z3/cvc5 within budget",
     "SDMXylm_grad": "same collapsed (atom, block) decomposition plus (lmax+1)^2 <= nlm from an integer square root: 27 of 46 pairs decided, the rest solver-unknown within budget "
                     "(its value contract is under C06; with ylm_atom_loc monotone no pair is refuted)",
+    "compute_spline_bas_separate_deriv": "writes the harmonics of every degree up to floor(sqrt(nlm-1)) into rows of length nlm: with the requires nlm = (lmax+1)^2, lmax >= 1 no pair is "
+                                         "refuted and 172 of 193 are decided; the remaining quadratic row-offset comparisons are solver-unknown within budget",
     "SDMXylm_loop": "same collapsed (atom, block) decomposition; calls recursive_sph_harm on a per-thread buffer (value contract of the harmonics under C06)",
 }
 
